@@ -903,6 +903,18 @@ pub fn run_case(tier: &str, seed: u64, idx: u64) -> CaseOut {
                 }
             }
         }
+        // the footer of a table (two block handles as varints, padding, magic number) is covered by no
+        // checksum: stretches of bytes with the continuation bit set (0xff, 0x80) laid over each
+        // position of the handles, the magic number left alone
+        if class == PathClass::Table && len >= 48 {
+            for p in (0..12usize).filter(|p| thorough || (*p as u64) % SLICES == slice % 12) {
+                for (fill, name) in [(0xffu8, "0xff"), (0x80u8, "0x80")] {
+                    let start = len - 48 + p;
+                    let run = 10 + (p % 3) * 9; // 10, 19 or 28 bytes: always short of the magic number
+                    mutations.push((start, format!("{name} run of {run}"), Box::new(move |b: &mut Vec<u8>| b[start..start + run].iter_mut().for_each(|x| *x = fill))));
+                }
+            }
+        }
         if class == PathClass::Table && thorough {
             for cut in (0..len).filter(|o| (*o as u64) % SLICES == slice) {
                 mutations.push((cut, "truncate".into(), Box::new(move |b: &mut Vec<u8>| b.truncate(cut))));
